@@ -106,40 +106,43 @@ func (c *FenceConn) BeginTx(ctx context.Context, opts driver.TxOptions) (driver.
 		return nil, errors.New("operation unsupported")
 	}
 
+	if !tm.IsSeataContext(ctx) {
+		return nil, errors.New("there is not seata context")
+	}
+
 	tx, err := beginer.BeginTx(ctx, opts)
 	if err != nil {
 		return nil, err
 	}
 
-	if !tm.IsSeataContext(ctx) {
-		return nil, errors.New("there is not seata context")
-	}
-
-	// check if have been begin fence tx
 	if tm.IsFenceTxBegin(ctx) {
 		return tx, nil
 	}
 
 	tm.SetFenceTxBeginedFlag(ctx, true)
 
-	fenceTx, err := c.TargetDB.BeginTx(ctx, &sql.TxOptions{})
-	if err != nil {
-		return nil, err
-	}
+	var fenceTx *sql.Tx
 	defer func() {
 		if err != nil {
-			if err := fenceTx.Rollback(); err != nil {
-				log.Error(err)
+			// nothing of a refused or failed step may stay open
+			tm.SetFenceTxBeginedFlag(ctx, false)
+			if fenceTx != nil {
+				if err := fenceTx.Rollback(); err != nil {
+					log.Error(err)
+				}
 			}
 
-			// although it have not any db operations yet, is still rollback to avoid leak tx.
 			if err := tx.Rollback(); err != nil {
 				log.Error(err)
 			}
 		}
 	}()
 
-	// do fence operations
+	fenceTx, err = c.TargetDB.BeginTx(ctx, &sql.TxOptions{})
+	if err != nil {
+		return nil, err
+	}
+
 	emptyCallback := func() error {
 		return nil
 	}
